@@ -229,12 +229,15 @@ def one_iteration(R, content):
         raise Unsupported("empty read is end of stream, not an iteration")
     c, calls = make_client(R, SymByteArray(content[:-1]), [SymBytes(content[-1:])])
     seen = []
+    oracle_log = []
+    c.oracle_log = oracle_log
     orig = c.decoder.decode_usb
 
     def dec_usb(packet):
         # the window check itself is obligation (3); here decode_usb is an oracle that either yields a message or not
-        seen.append(packet)
         ch = EX().choose(3)
+        seen.append(packet)
+        oracle_log.append(ch)
         if ch == 1:
             results.append(packet)
             return ("MSG", len(results))
@@ -275,12 +278,16 @@ def _iter_worker(Ns):
     for N in Ns:
         content = [SymInt.var("b%d" % i, 8) for i in range(N)]
 
+        cur = {"oracle": []}
+
         def h():
             outcome, c, seen, results = one_iteration(R, content)
-            return outcome, c._buffer, seen, list(c.queue.items), results
+            cur["oracle"] = list(c.oracle_log)
+            return outcome, c._buffer, seen, list(c.queue.items), results, list(c.oracle_log)
 
         def wit(m):
-            return {"kind": "iteration", "buffer": bytes(m.eval(b.t, True).as_long() & 0xFF for b in content).hex()}
+            # oracle: what decode_usb did for the window(s) of this path (0 nothing, 1 a message, 2 raised)
+            return {"kind": "iteration", "buffer": bytes(m.eval(b.t, True).as_long() & 0xFF for b in content).hex(), "oracle": list(cur["oracle"])}
         try:
             paths, ex = explore(h, max_paths=4096)
         except Unsupported as e:
@@ -294,7 +301,7 @@ def _iter_worker(Ns):
             if pa.kind != "return":
                 rep.violation({"kind": "iteration-raises"}, "N=%d: receive loop raised %r" % (N, pa.value), wit(m0))
                 continue
-            outcome, buf, seen, queued, results = pa.value
+            outcome, buf, seen, queued, results, cur["oracle"] = pa.value
             items = list(buf) if not isinstance(buf, (bytes, bytearray)) else list(buf)
 
             def marker_at(i):
@@ -588,11 +595,22 @@ def replay(r):
     from .plain import plain
     N = plain(with_io=True)
 
-    def run_client(chunks):
+    def run_client(chunks, oracle=None):
         import logging
         logging.disable(logging.CRITICAL)
         c = build_client(N, chunks)
         c.decoder = N.decoder.NMEA2000Decoder()
+        if oracle:
+            real_usb = c.decoder.decode_usb
+            ncall = [0]
+
+            def usb(packet):
+                i_ = ncall[0]
+                ncall[0] += 1
+                if i_ < len(oracle) and oracle[i_] == 2:
+                    raise ValueError("decoder rejects this window")
+                return real_usb(packet)
+            c.decoder.decode_usb = usb
         res = []
         c.decoder._decode = lambda pgn, prio, src, dst, ts, data, raw, combined=False: res.append((pgn, src, bytes(data))) or "MSG"
         lens = []
@@ -608,18 +626,20 @@ def replay(r):
         return growth_check(None, N, is_replay=True)
     if r["kind"] == "iteration":
         buf = bytes.fromhex(r["buffer"])
-        res, lens, c = run_client([buf])
+        res, lens, c = run_client([buf], r.get("oracle"))
         # reference: process as the property describes
         i = 0
         exp = []
+        windows = []
         b = buf
         while True:
             s = b.find(b"\xaa\x55")
             if s == -1 or s + 20 > len(b):
                 break
             pk = b[s:s + 20]
-            if pk[19] == sum(pk[2:19]) & 0xFF:
+            if pk[19] == sum(pk[2:19]) & 0xFF and not ((r.get("oracle") or [0] * 99)[len(windows)] == 2 if len(windows) < len(r.get("oracle") or []) else False):
                 exp.append(pk)
+            windows.append(pk)
             b = b[s + 20:]
         left = bytes(c._buffer)
         sm = b.find(b"\xaa\x55")
